@@ -24,6 +24,7 @@ def run(rep):
         "the name tables, and a must-assigned dataflow over the whole read path.")
     rep.assume("ghost widths are >= 1 (a[g:-g] is empty for g = 0)")
     R.chunk_placement(rep)
+    R.chunk_coverage(rep)
     R.ghost_and_axes(rep)
     R.restart_selection(rep)
     R.iteration_labels(rep)
